@@ -50,12 +50,15 @@ theorem exec_append (sigOK : Key → Bytes → Bool) (a b : List Op) (s : St) :
 /-- the fragment set covered by T3 so far. -/
 def inS1 : Ms → Bool
   | .f0 | .f1 | .pk_k _ => true
-  | .wrap w x => (w == .c || w == .v || w == .a) && inS1 x
-  | .bin b x y => (b == .and_v || b == .and_b || b == .or_b || b == .or_i) && inS1 x && inS1 y
+  | .wrap w x => (w == .c || w == .v || w == .a || w == .n) && inS1 x
+  | .bin b x y =>
+    (b == .and_v || b == .and_b || b == .or_b || b == .or_i || b == .or_c || b == .or_d) &&
+      inS1 x && inS1 y
+  | .andor x y z => inS1 x && inS1 y && inS1 z
   | _ => false
 
 def Op.isControl : Op → Bool
-  | .opif | .opelse | .endif => true
+  | .opif | .notif | .opelse | .endif => true
   | _ => false
 
 theorem step_skip (sigOK : Key → Bytes → Bool) (o : Op) (s : St) (ho : o.isControl = false)
@@ -100,23 +103,33 @@ theorem exec_skip (sigOK : Key → Bytes → Bool) (ctx : Ctx) (h160 : Bytes →
     simp only [inS1, Bool.and_eq_true, Bool.or_eq_true, beq_iff_eq] at hin
     have H := fun v => exec_skip sigOK ctx h160 x v st al cs hin.2 hc
     have hs := fun o ho os => exec_cons_skip sigOK o os st al cs ho hc
-    rcases hin.1 with (rfl | rfl) | rfl
+    rcases hin.1 with ((rfl | rfl) | rfl) | rfl
     · cases v <;> simp [opsOf, exec_append, H, hs .checksig rfl, hs .checksigverify rfl]
     · simp only [opsOf, exec_append, H]
       split <;> simp [hs .verify rfl]
     · simp [opsOf, exec_append, H, hs .toalt rfl, hs .fromalt rfl]
+    · simp [opsOf, exec_append, H, hs .zeronotequal rfl]
   | .bin b x y, v, st, al, cs, hin, hc => by
     simp only [inS1, Bool.and_eq_true, Bool.or_eq_true, beq_iff_eq] at hin
     have Hx := fun v => exec_skip sigOK ctx h160 x v st al cs hin.1.2 hc
     have Hy := fun v => exec_skip sigOK ctx h160 y v st al cs hin.2 hc
     have hs := fun o ho os => exec_cons_skip sigOK o os st al cs ho hc
-    rcases hin.1.1 with ((rfl | rfl) | rfl) | rfl
+    have Hx' := exec_skip sigOK ctx h160 x false st al (false :: cs) hin.1.2 (by simp [executing_cons])
+    have Hy' := exec_skip sigOK ctx h160 y false st al (true :: cs) hin.2 (by simp [executing_cons, hc])
+    have Hy'' := exec_skip sigOK ctx h160 y false st al (false :: cs) hin.2 (by simp [executing_cons])
+    rcases hin.1.1 with ((((rfl | rfl) | rfl) | rfl) | rfl) | rfl
     · simp [opsOf, exec_append, Hx, Hy]
     · simp [opsOf, exec_append, Hx, Hy, hs .booland rfl]
     · simp [opsOf, exec_append, Hx, Hy, hs .boolor rfl]
-    · have Hx' := exec_skip sigOK ctx h160 x false st al (false :: cs) hin.1.2 (by simp [executing_cons])
-      have Hy' := exec_skip sigOK ctx h160 y false st al (true :: cs) hin.2 (by simp [executing_cons, hc])
-      simp [opsOf, exec_append, exec, step, hc, Hx', Hy']
+    · simp [opsOf, exec_append, exec, step, hc, Hx', Hy']
+    · simp [opsOf, exec_append, Hx, exec, step, hc, Hy'']
+    · simp [opsOf, exec_append, Hx, hs .ifdup rfl, exec, step, hc, Hy'']
+  | .andor x y z, v, st, al, cs, hin, hc => by
+    simp only [inS1, Bool.and_eq_true] at hin
+    have Hx := exec_skip sigOK ctx h160 x false st al cs hin.1.1 hc
+    have Hz := exec_skip sigOK ctx h160 z false st al (false :: cs) hin.2 (by simp [executing_cons])
+    have Hy := exec_skip sigOK ctx h160 y false st al (true :: cs) hin.1.2 (by simp [executing_cons, hc])
+    simp [opsOf, exec_append, Hx, exec, step, hc, Hz, Hy]
 
 /-! ### what satisfies and what dissatisfies (BIP379's tables, stack order: head = top) -/
 
@@ -139,6 +152,16 @@ inductive Sat (sigOK : Key → Bytes → Bool) : Ms → List Bytes → Prop
     Sat sigOK x sx → Sat sigOK y sy → Sat sigOK (.bin .or_b x y) (sx ++ sy)
   | or_i_l (x y : Ms) (sx : List Bytes) : Sat sigOK x sx → Sat sigOK (.bin .or_i x y) ([1] :: sx)
   | or_i_r (x y : Ms) (sy : List Bytes) : Sat sigOK y sy → Sat sigOK (.bin .or_i x y) ([] :: sy)
+  | or_c_l (x y : Ms) (sx : List Bytes) : Sat sigOK x sx → Sat sigOK (.bin .or_c x y) sx
+  | or_c_r (x y : Ms) (sx sy : List Bytes) :
+    Dsat sigOK x sx → Sat sigOK y sy → Sat sigOK (.bin .or_c x y) (sx ++ sy)
+  | or_d_l (x y : Ms) (sx : List Bytes) : Sat sigOK x sx → Sat sigOK (.bin .or_d x y) sx
+  | or_d_r (x y : Ms) (sx sy : List Bytes) :
+    Dsat sigOK x sx → Sat sigOK y sy → Sat sigOK (.bin .or_d x y) (sx ++ sy)
+  | andor_l (x y z : Ms) (sx sy : List Bytes) :
+    Sat sigOK x sx → Sat sigOK y sy → Sat sigOK (.andor x y z) (sx ++ sy)
+  | andor_r (x y z : Ms) (sx sz : List Bytes) :
+    Dsat sigOK x sx → Sat sigOK z sz → Sat sigOK (.andor x y z) (sx ++ sz)
 /-- `Dsat sigOK n s`: a dissatisfaction. -/
 inductive Dsat (sigOK : Key → Bytes → Bool) : Ms → List Bytes → Prop
   | f0 : Dsat sigOK .f0 []
@@ -155,6 +178,13 @@ inductive Dsat (sigOK : Key → Bytes → Bool) : Ms → List Bytes → Prop
     Dsat sigOK x sx → Dsat sigOK y sy → Dsat sigOK (.bin .or_b x y) (sx ++ sy)
   | or_i_l (x y : Ms) (sx : List Bytes) : Dsat sigOK x sx → Dsat sigOK (.bin .or_i x y) ([1] :: sx)
   | or_i_r (x y : Ms) (sy : List Bytes) : Dsat sigOK y sy → Dsat sigOK (.bin .or_i x y) ([] :: sy)
+  | wrap_n (x : Ms) (s : List Bytes) : Dsat sigOK x s → Dsat sigOK (.wrap .n x) s
+  | or_d (x y : Ms) (sx sy : List Bytes) :
+    Dsat sigOK x sx → Dsat sigOK y sy → Dsat sigOK (.bin .or_d x y) (sx ++ sy)
+  | andor (x y z : Ms) (sx sz : List Bytes) :
+    Dsat sigOK x sx → Dsat sigOK z sz → Dsat sigOK (.andor x y z) (sx ++ sz)
+  | andor_y (x y z : Ms) (sx sy : List Bytes) :
+    Sat sigOK x sx → Dsat sigOK y sy → Dsat sigOK (.andor x y z) (sx ++ sy)
 end
 
 section
@@ -286,6 +316,51 @@ theorem ty_or_i (x y : Ms) (h : Typed ctx (.bin .or_i x y)) :
   rw [sanitized_eq _ h]
   simp [orProperties, Props.has]
 
+theorem ty_n (x : Ms) (h : Typed ctx (.wrap .n x)) :
+    (typeOf ctx x).B = true ∧ (typeOf ctx (.wrap .n x)).B = true ∧
+      (typeOf ctx (.wrap .n x)).x = true := by
+  unfold Typed at h
+  simp only [typeOf] at h ⊢
+  rw [sanitized_eq _ h]
+  rw [sanitized_eq _ h] at h
+  simp [wrapperProperties, Props.basicCount, Props.has] at h ⊢
+  exact h
+
+theorem ty_or_d (x y : Ms) (h : Typed ctx (.bin .or_d x y)) :
+    (typeOf ctx x).B = true ∧ (typeOf ctx y).B = true ∧
+    (typeOf ctx (.bin .or_d x y)).B = true ∧ (typeOf ctx (.bin .or_d x y)).x = true := by
+  unfold Typed at h
+  simp only [typeOf, Bin.isAnd] at h ⊢
+  rw [sanitized_eq _ h]
+  rw [sanitized_eq _ h] at h
+  simp [orProperties, Props.basicCount, Props.has] at h ⊢
+  cases hB : (typeOf ctx x).B <;> cases hB' : (typeOf ctx y).B <;> simp_all
+
+theorem ty_or_c (x y : Ms) (h : Typed ctx (.bin .or_c x y)) :
+    (typeOf ctx x).B = true ∧ (typeOf ctx y).V = true ∧
+    (typeOf ctx (.bin .or_c x y)).V = true := by
+  unfold Typed at h
+  simp only [typeOf, Bin.isAnd] at h ⊢
+  rw [sanitized_eq _ h]
+  rw [sanitized_eq _ h] at h
+  simp [orProperties, Props.basicCount, Props.has] at h ⊢
+  cases hB : (typeOf ctx x).B <;> cases hB' : (typeOf ctx y).V <;> simp_all
+
+theorem ty_andor (x y z : Ms) (h : Typed ctx (.andor x y z)) :
+    (typeOf ctx x).B = true ∧
+    (typeOf ctx (.andor x y z)).B = ((typeOf ctx y).B && (typeOf ctx z).B) ∧
+    (typeOf ctx (.andor x y z)).V = ((typeOf ctx y).V && (typeOf ctx z).V) ∧
+    (typeOf ctx (.andor x y z)).K = ((typeOf ctx y).K && (typeOf ctx z).K) ∧
+    (typeOf ctx (.andor x y z)).W = false ∧
+    (typeOf ctx (.andor x y z)).x = true := by
+  unfold Typed at h
+  simp only [typeOf] at h ⊢
+  rw [sanitized_eq _ h]
+  rw [sanitized_eq _ h] at h
+  simp [andorProperties, Props.basicCount, Props.has] at h ⊢
+  cases hB : (typeOf ctx x).B <;> cases hd : (typeOf ctx x).d <;> cases hu : (typeOf ctx x).u <;>
+    simp_all
+
 end
 
 /-! ### the induction -/
@@ -294,10 +369,14 @@ end
 def s1Typed (ctx : Ctx) : Ms → Bool
   | .f0 | .f1 | .pk_k _ => true
   | .wrap w x =>
-    (w == .c || w == .v || w == .a) && decide ((typeOf ctx (.wrap w x)).basicCount = 1) && s1Typed ctx x
+    (w == .c || w == .v || w == .a || w == .n) &&
+      decide ((typeOf ctx (.wrap w x)).basicCount = 1) && s1Typed ctx x
   | .bin b x y =>
-    (b == .and_v || b == .and_b || b == .or_b || b == .or_i) &&
+    (b == .and_v || b == .and_b || b == .or_b || b == .or_i || b == .or_c || b == .or_d) &&
       decide ((typeOf ctx (.bin b x y)).basicCount = 1) && s1Typed ctx x && s1Typed ctx y
+  | .andor x y z =>
+    decide ((typeOf ctx (.andor x y z)).basicCount = 1) && s1Typed ctx x && s1Typed ctx y &&
+      s1Typed ctx z
   | _ => false
 
 theorem inS1_of_s1Typed (ctx : Ctx) : ∀ n, s1Typed ctx n = true → inS1 n = true
@@ -308,8 +387,11 @@ theorem inS1_of_s1Typed (ctx : Ctx) : ∀ n, s1Typed ctx n = true → inS1 n = t
   | .bin b x y, h => by
     simp only [s1Typed, Bool.and_eq_true] at h
     simp [inS1, h.1.1.1, inS1_of_s1Typed ctx x h.1.2, inS1_of_s1Typed ctx y h.2]
+  | .andor x y z, h => by
+    simp only [s1Typed, Bool.and_eq_true] at h
+    simp [inS1, inS1_of_s1Typed ctx x h.1.1.2, inS1_of_s1Typed ctx y h.1.2, inS1_of_s1Typed ctx z h.2]
   | .pk_h _, h | .older _, h | .after _, h | .hash _ _, h | .multi _ _, h | .multi_a _ _, h
-  | .andor _ _ _, h | .thresh _ _ _, h => by simp [s1Typed] at h
+  | .thresh _ _ _, h => by simp [s1Typed] at h
 
 theorem exec_cons_run (sigOK : Key → Bytes → Bool) (o : Op) (os : List Op) (st al : List Bytes)
     (cs : List Bool) (ho : o.isControl = false) (hc : executing cs = true) :
@@ -646,6 +728,217 @@ theorem sound_or_i (x y : Ms) (ht : Typed ctx (.bin .or_i x y)) (hix : inS1 x = 
         obtain ⟨k, σ, hσ, e⟩ := yd sy stk al _ (hcs cs hc) hsy
         exact ⟨k, σ, hσ, exec_or_i_r sigOK ctx h160 x y false hix _ _ al al cs hc e⟩
 
+theorem sound_n (x : Ms) (ht : Typed ctx (.wrap .n x)) (ih : Sound sigOK ctx h160 x) :
+    Sound sigOK ctx h160 (.wrap .n x) := by
+  obtain ⟨hB, tB, tx⟩ := ty_n ctx x ht
+  obtain ⟨bs, bd, _⟩ := ih.1 hB
+  have hsat : ∀ s stk al cs, executing cs = true → Sat sigOK (.wrap .n x) s →
+      exec sigOK (opsOf ctx h160 false (.wrap .n x)) ⟨s ++ stk, al, cs⟩ =
+        some ⟨[1] :: stk, al, cs⟩ := by
+    intro s stk al cs hc hs
+    cases hs with
+    | wrap _ _ _ hs =>
+      simp [opsOf, exec_append, bs s stk al cs hc hs,
+        exec_cons_run sigOK .zeronotequal [] _ al cs rfl hc, stepExec, numTruth, castToBool, boolBytes]
+  refine sound_of_B sigOK ctx h160 _ ht tB ⟨hsat, ?_, bVer_of_x sigOK ctx h160 _ tx rfl hsat⟩
+  intro s stk al cs hc hs
+  cases hs with
+  | wrap_n _ _ hs =>
+    simp [opsOf, exec_append, bd s stk al cs hc hs,
+      exec_cons_run sigOK .zeronotequal [] _ al cs rfl hc, stepExec, numTruth, castToBool, boolBytes]
+
+/-- `NOTIF [Y] ENDIF` after a true value: Y is skipped. -/
+theorem notif_tail_l (y : Ms) (hy : inS1 y = true) (st al : List Bytes) (cs : List Bool)
+    (hc : executing cs = true) :
+    exec sigOK ([.notif] ++ opsOf ctx h160 false y ++ [.endif]) ⟨[1] :: st, al, cs⟩ =
+      some ⟨st, al, cs⟩ := by
+  have e0 : step sigOK .notif ⟨[1] :: st, al, cs⟩ = some ⟨st, al, false :: cs⟩ := by
+    simp [step, hc, castToBool]
+  have e2 := exec_skip sigOK ctx h160 y false st al (false :: cs) hy (by simp [executing_cons])
+  have e3 : step sigOK .endif ⟨st, al, false :: cs⟩ = some ⟨st, al, cs⟩ := by simp [step]
+  simp only [List.append_assoc, List.cons_append, List.nil_append, exec, e0, Option.bind_some,
+    exec_append, e2, e3]
+
+/-- `NOTIF [Y] ENDIF` after the empty vector: Y runs. -/
+theorem notif_tail_r (y : Ms) (st st' al al' : List Bytes) (cs : List Bool)
+    (hc : executing cs = true)
+    (hy : exec sigOK (opsOf ctx h160 false y) ⟨st, al, true :: cs⟩ = some ⟨st', al', true :: cs⟩) :
+    exec sigOK ([.notif] ++ opsOf ctx h160 false y ++ [.endif]) ⟨[] :: st, al, cs⟩ =
+      some ⟨st', al', cs⟩ := by
+  have e0 : step sigOK .notif ⟨[] :: st, al, cs⟩ = some ⟨st, al, true :: cs⟩ := by
+    simp [step, hc, castToBool]
+  have e3 : step sigOK .endif ⟨st', al', true :: cs⟩ = some ⟨st', al', cs⟩ := by simp [step]
+  simp only [List.append_assoc, List.cons_append, List.nil_append, exec, e0, Option.bind_some,
+    exec_append, hy, e3]
+
+theorem sound_or_c (x y : Ms) (ht : Typed ctx (.bin .or_c x y)) (hiy : inS1 y = true)
+    (ihx : Sound sigOK ctx h160 x) (ihy : Sound sigOK ctx h160 y) :
+    Sound sigOK ctx h160 (.bin .or_c x y) := by
+  obtain ⟨hB, hV, tV⟩ := ty_or_c ctx x y ht
+  obtain ⟨xs, xd, _⟩ := ihx.1 hB
+  have vy := ihy.2.1 hV
+  refine sound_of_V sigOK ctx h160 _ ht tV ?_
+  intro s stk al cs hc hs
+  have hops : opsOf ctx h160 false (.bin .or_c x y) =
+      opsOf ctx h160 false x ++ ([.notif] ++ opsOf ctx h160 false y ++ [.endif]) := by
+    simp [opsOf]
+  rw [hops, exec_append]
+  cases hs with
+  | or_c_l _ _ _ hsx =>
+    rw [xs _ stk al cs hc hsx, Option.bind_some]
+    exact notif_tail_l sigOK ctx h160 y hiy stk al cs hc
+  | or_c_r _ _ sx sy hsx hsy =>
+    rw [List.append_assoc, xd sx (sy ++ stk) al cs hc hsx, Option.bind_some]
+    exact notif_tail_r sigOK ctx h160 y _ _ al al cs hc
+      (vy sy stk al _ (by simp [executing_cons, hc]) hsy)
+
+theorem sound_or_d (x y : Ms) (ht : Typed ctx (.bin .or_d x y)) (hiy : inS1 y = true)
+    (ihx : Sound sigOK ctx h160 x) (ihy : Sound sigOK ctx h160 y) :
+    Sound sigOK ctx h160 (.bin .or_d x y) := by
+  obtain ⟨hB, hB', tB, tx⟩ := ty_or_d ctx x y ht
+  obtain ⟨xs, xd, _⟩ := ihx.1 hB
+  obtain ⟨ys, yd, _⟩ := ihy.1 hB'
+  have hops : opsOf ctx h160 false (.bin .or_d x y) =
+      opsOf ctx h160 false x ++ ([.ifdup] ++ ([.notif] ++ opsOf ctx h160 false y ++ [.endif])) := by
+    simp [opsOf]
+  have dupT : ∀ stk al cs, executing cs = true →
+      exec sigOK ([.ifdup] ++ ([.notif] ++ opsOf ctx h160 false y ++ [.endif])) ⟨[1] :: stk, al, cs⟩ =
+        some ⟨[1] :: stk, al, cs⟩ := by
+    intro stk al cs hc
+    rw [List.singleton_append, exec_cons_run sigOK .ifdup _ _ al cs rfl hc]
+    simp only [stepExec, castToBool]
+    exact notif_tail_l sigOK ctx h160 y hiy ([1] :: stk) al cs hc
+  have dupF : ∀ stk st' al cs, executing cs = true →
+      exec sigOK (opsOf ctx h160 false y) ⟨stk, al, true :: cs⟩ = some ⟨st', al, true :: cs⟩ →
+      exec sigOK ([.ifdup] ++ ([.notif] ++ opsOf ctx h160 false y ++ [.endif])) ⟨[] :: stk, al, cs⟩ =
+        some ⟨st', al, cs⟩ := by
+    intro stk st' al cs hc hy
+    rw [List.singleton_append, exec_cons_run sigOK .ifdup _ _ al cs rfl hc]
+    simp only [stepExec, castToBool]
+    exact notif_tail_r sigOK ctx h160 y stk st' al al cs hc hy
+  have hcs : ∀ cs, executing cs = true → executing (true :: cs) = true := by
+    intro cs h; simp [executing_cons, h]
+  have hsat : ∀ s stk al cs, executing cs = true → Sat sigOK (.bin .or_d x y) s →
+      exec sigOK (opsOf ctx h160 false (.bin .or_d x y)) ⟨s ++ stk, al, cs⟩ =
+        some ⟨[1] :: stk, al, cs⟩ := by
+    intro s stk al cs hc hs
+    rw [hops, exec_append]
+    cases hs with
+    | or_d_l _ _ _ hsx =>
+      rw [xs _ stk al cs hc hsx, Option.bind_some]
+      exact dupT stk al cs hc
+    | or_d_r _ _ sx sy hsx hsy =>
+      rw [List.append_assoc, xd sx (sy ++ stk) al cs hc hsx, Option.bind_some]
+      exact dupF _ _ al cs hc (ys sy stk al _ (hcs cs hc) hsy)
+  refine sound_of_B sigOK ctx h160 _ ht tB ⟨hsat, ?_, bVer_of_x sigOK ctx h160 _ tx rfl hsat⟩
+  intro s stk al cs hc hs
+  rw [hops, exec_append]
+  cases hs with
+  | or_d _ _ sx sy hsx hsy =>
+    rw [List.append_assoc, xd sx (sy ++ stk) al cs hc hsx, Option.bind_some]
+    exact dupF _ _ al cs hc (yd sy stk al _ (hcs cs hc) hsy)
+
+/-- `NOTIF [Z] ELSE [Y] ENDIF` after a true value: Y runs, Z is skipped. -/
+theorem andor_tail_l (y z : Ms) (hz : inS1 z = true) (st st' al al' : List Bytes) (cs : List Bool)
+    (hc : executing cs = true)
+    (hy : exec sigOK (opsOf ctx h160 false y) ⟨st, al, true :: cs⟩ = some ⟨st', al', true :: cs⟩) :
+    exec sigOK ([.notif] ++ opsOf ctx h160 false z ++ [.opelse] ++ opsOf ctx h160 false y ++ [.endif])
+      ⟨[1] :: st, al, cs⟩ = some ⟨st', al', cs⟩ := by
+  have e0 : step sigOK .notif ⟨[1] :: st, al, cs⟩ = some ⟨st, al, false :: cs⟩ := by
+    simp [step, hc, castToBool]
+  have e1 := exec_skip sigOK ctx h160 z false st al (false :: cs) hz (by simp [executing_cons])
+  have e2 : step sigOK .opelse ⟨st, al, false :: cs⟩ = some ⟨st, al, true :: cs⟩ := by simp [step]
+  have e3 : step sigOK .endif ⟨st', al', true :: cs⟩ = some ⟨st', al', cs⟩ := by simp [step]
+  simp only [List.append_assoc, List.cons_append, List.nil_append, exec, e0, Option.bind_some,
+    exec_append, e1, e2, hy, e3]
+
+/-- `NOTIF [Z] ELSE [Y] ENDIF` after the empty vector: Z runs, Y is skipped. -/
+theorem andor_tail_r (y z : Ms) (hy : inS1 y = true) (st st' al al' : List Bytes) (cs : List Bool)
+    (hc : executing cs = true)
+    (hz : exec sigOK (opsOf ctx h160 false z) ⟨st, al, true :: cs⟩ = some ⟨st', al', true :: cs⟩) :
+    exec sigOK ([.notif] ++ opsOf ctx h160 false z ++ [.opelse] ++ opsOf ctx h160 false y ++ [.endif])
+      ⟨[] :: st, al, cs⟩ = some ⟨st', al', cs⟩ := by
+  have e0 : step sigOK .notif ⟨[] :: st, al, cs⟩ = some ⟨st, al, true :: cs⟩ := by
+    simp [step, hc, castToBool]
+  have e2 : step sigOK .opelse ⟨st', al', true :: cs⟩ = some ⟨st', al', false :: cs⟩ := by
+    simp [step]
+  have e1 := exec_skip sigOK ctx h160 y false st' al' (false :: cs) hy (by simp [executing_cons])
+  have e3 : step sigOK .endif ⟨st', al', false :: cs⟩ = some ⟨st', al', cs⟩ := by simp [step]
+  simp only [List.append_assoc, List.cons_append, List.nil_append, exec, e0, Option.bind_some,
+    exec_append, hz, e2, e1, e3]
+
+theorem sound_andor (x y z : Ms) (ht : Typed ctx (.andor x y z)) (hiy : inS1 y = true)
+    (hiz : inS1 z = true) (ihx : Sound sigOK ctx h160 x) (ihy : Sound sigOK ctx h160 y)
+    (ihz : Sound sigOK ctx h160 z) : Sound sigOK ctx h160 (.andor x y z) := by
+  obtain ⟨hB, eB, eV, eK, eW, ex⟩ := ty_andor ctx x y z ht
+  obtain ⟨xs, xd, _⟩ := ihx.1 hB
+  have hops : opsOf ctx h160 false (.andor x y z) = opsOf ctx h160 false x ++
+      ([.notif] ++ opsOf ctx h160 false z ++ [.opelse] ++ opsOf ctx h160 false y ++ [.endif]) := by
+    simp [opsOf]
+  have hcs : ∀ cs, executing cs = true → executing (true :: cs) = true := by
+    intro cs h; simp [executing_cons, h]
+  -- the two ways through: X satisfied then Y; X dissatisfied then Z
+  have viaY : ∀ sx sy stk st' al cs, executing cs = true → Sat sigOK x sx →
+      exec sigOK (opsOf ctx h160 false y) ⟨sy ++ stk, al, true :: cs⟩ = some ⟨st', al, true :: cs⟩ →
+      exec sigOK (opsOf ctx h160 false (.andor x y z)) ⟨(sx ++ sy) ++ stk, al, cs⟩ =
+        some ⟨st', al, cs⟩ := by
+    intro sx sy stk st' al cs hc hsx hy
+    rw [hops, exec_append, List.append_assoc, xs sx (sy ++ stk) al cs hc hsx, Option.bind_some]
+    exact andor_tail_l sigOK ctx h160 y z hiz _ _ al al cs hc hy
+  have viaZ : ∀ sx sz stk st' al cs, executing cs = true → Dsat sigOK x sx →
+      exec sigOK (opsOf ctx h160 false z) ⟨sz ++ stk, al, true :: cs⟩ = some ⟨st', al, true :: cs⟩ →
+      exec sigOK (opsOf ctx h160 false (.andor x y z)) ⟨(sx ++ sz) ++ stk, al, cs⟩ =
+        some ⟨st', al, cs⟩ := by
+    intro sx sz stk st' al cs hc hsx hz
+    rw [hops, exec_append, List.append_assoc, xd sx (sz ++ stk) al cs hc hsx, Option.bind_some]
+    exact andor_tail_r sigOK ctx h160 y z hiy _ _ al al cs hc hz
+  refine ⟨?_, ?_, ?_, fun h => by rw [eW] at h; cases h⟩
+  · intro hB'
+    rw [eB, Bool.and_eq_true] at hB'
+    obtain ⟨ys, yd, _⟩ := ihy.1 hB'.1
+    obtain ⟨zs, zd, _⟩ := ihz.1 hB'.2
+    have hsat : ∀ s stk al cs, executing cs = true → Sat sigOK (.andor x y z) s →
+        exec sigOK (opsOf ctx h160 false (.andor x y z)) ⟨s ++ stk, al, cs⟩ =
+          some ⟨[1] :: stk, al, cs⟩ := by
+      intro s stk al cs hc hs
+      cases hs with
+      | andor_l _ _ _ sx sy hsx hsy => exact viaY sx sy stk _ al cs hc hsx (ys sy stk al _ (hcs cs hc) hsy)
+      | andor_r _ _ _ sx sz hsx hsz => exact viaZ sx sz stk _ al cs hc hsx (zs sz stk al _ (hcs cs hc) hsz)
+    refine ⟨hsat, ?_, bVer_of_x sigOK ctx h160 _ ex rfl hsat⟩
+    intro s stk al cs hc hs
+    cases hs with
+    | andor _ _ _ sx sz hsx hsz => exact viaZ sx sz stk _ al cs hc hsx (zd sz stk al _ (hcs cs hc) hsz)
+    | andor_y _ _ _ sx sy hsx hsy => exact viaY sx sy stk _ al cs hc hsx (yd sy stk al _ (hcs cs hc) hsy)
+  · intro hV
+    rw [eV, Bool.and_eq_true] at hV
+    have vy := ihy.2.1 hV.1
+    have vz := ihz.2.1 hV.2
+    intro s stk al cs hc hs
+    cases hs with
+    | andor_l _ _ _ sx sy hsx hsy => exact viaY sx sy stk _ al cs hc hsx (vy sy stk al _ (hcs cs hc) hsy)
+    | andor_r _ _ _ sx sz hsx hsz => exact viaZ sx sz stk _ al cs hc hsx (vz sz stk al _ (hcs cs hc) hsz)
+  · intro hK
+    rw [eK, Bool.and_eq_true] at hK
+    obtain ⟨ys, yd⟩ := ihy.2.2.1 hK.1
+    obtain ⟨zs, zd⟩ := ihz.2.2.1 hK.2
+    refine ⟨?_, ?_⟩
+    · intro s stk al cs hc hs
+      cases hs with
+      | andor_l _ _ _ sx sy hsx hsy =>
+        obtain ⟨k, σ, hσ, e⟩ := ys sy stk al _ (hcs cs hc) hsy
+        exact ⟨k, σ, hσ, viaY sx sy stk _ al cs hc hsx e⟩
+      | andor_r _ _ _ sx sz hsx hsz =>
+        obtain ⟨k, σ, hσ, e⟩ := zs sz stk al _ (hcs cs hc) hsz
+        exact ⟨k, σ, hσ, viaZ sx sz stk _ al cs hc hsx e⟩
+    · intro s stk al cs hc hs
+      cases hs with
+      | andor _ _ _ sx sz hsx hsz =>
+        obtain ⟨k, σ, hσ, e⟩ := zd sz stk al _ (hcs cs hc) hsz
+        exact ⟨k, σ, hσ, viaZ sx sz stk _ al cs hc hsx e⟩
+      | andor_y _ _ _ sx sy hsx hsy =>
+        obtain ⟨k, σ, hσ, e⟩ := yd sy stk al _ (hcs cs hc) hsy
+        exact ⟨k, σ, hσ, viaY sx sy stk _ al cs hc hsx e⟩
+
 /-- T3 for S1: every typed expression of the fragment set does to the stack what its type says. -/
 theorem sound_s1 (hsig0 : ∀ k, sigOK k [] = false) :
     ∀ (n : Ms), s1Typed ctx n = true → Sound sigOK ctx h160 n
@@ -655,22 +948,30 @@ theorem sound_s1 (hsig0 : ∀ k, sigOK k [] = false) :
   | .wrap w x, h => by
     simp only [s1Typed, Bool.and_eq_true, Bool.or_eq_true, beq_iff_eq, decide_eq_true_eq] at h
     have ih := sound_s1 hsig0 x h.2
-    rcases h.1.1 with (rfl | rfl) | rfl
+    rcases h.1.1 with ((rfl | rfl) | rfl) | rfl
     · exact sound_c sigOK ctx h160 x h.1.2 ih
     · exact sound_v sigOK ctx h160 x h.1.2 ih
     · exact sound_a sigOK ctx h160 x h.1.2 ih
+    · exact sound_n sigOK ctx h160 x h.1.2 ih
   | .bin b x y, h => by
     simp only [s1Typed, Bool.and_eq_true, Bool.or_eq_true, beq_iff_eq, decide_eq_true_eq] at h
     have ihx := sound_s1 hsig0 x h.1.2
     have ihy := sound_s1 hsig0 y h.2
-    rcases h.1.1.1 with ((rfl | rfl) | rfl) | rfl
+    rcases h.1.1.1 with ((((rfl | rfl) | rfl) | rfl) | rfl) | rfl
     · exact sound_and_v sigOK ctx h160 x y h.1.1.2 ihx ihy
     · exact sound_and_b sigOK ctx h160 x y h.1.1.2 ihx ihy
     · exact sound_or_b sigOK ctx h160 x y h.1.1.2 ihx ihy
     · exact sound_or_i sigOK ctx h160 x y h.1.1.2 (inS1_of_s1Typed ctx x h.1.2)
         (inS1_of_s1Typed ctx y h.2) ihx ihy
+    · exact sound_or_c sigOK ctx h160 x y h.1.1.2 (inS1_of_s1Typed ctx y h.2) ihx ihy
+    · exact sound_or_d sigOK ctx h160 x y h.1.1.2 (inS1_of_s1Typed ctx y h.2) ihx ihy
+  | .andor x y z, h => by
+    simp only [s1Typed, Bool.and_eq_true, decide_eq_true_eq] at h
+    exact sound_andor sigOK ctx h160 x y z h.1.1.1 (inS1_of_s1Typed ctx y h.1.2)
+      (inS1_of_s1Typed ctx z h.2) (sound_s1 hsig0 x h.1.1.2) (sound_s1 hsig0 y h.1.2)
+      (sound_s1 hsig0 z h.2)
   | .pk_h _, h | .older _, h | .after _, h | .hash _ _, h | .multi _ _, h | .multi_a _ _, h
-  | .andor _ _ _, h | .thresh _ _ _, h => by simp [s1Typed] at h
+  | .thresh _ _ _, h => by simp [s1Typed] at h
 
 end
 
